@@ -12,7 +12,7 @@ import numpy as np
 from harness import common as C
 
 HEADER = """From Coq Require Import List ZArith QArith Bool. Import ListNotations.
-From TLV Require Import Base.Tensor Model.Metrics Model.MetricsSrc Corr.C20."""
+From TLV Require Import Base.Tensor Model.Metrics Model.MetricsSrc Model.MetricsPermute Corr.C20."""
 
 EPS64 = float(np.finfo(np.float64).eps)
 METHODS = ["stacked", "max_score", "min_score", "avg_score"]
@@ -489,6 +489,92 @@ def gen_permute(tier, rng):
             calls.append(dict(As=A, Bs=B, w=w, wref=wref, sigma=sigma, as_list=as_list, pick=pick, stream="equivalent", **extra))
         else:
             calls.append(dict(As=A, Bs=factor_set(rng, r, hs), w=w, wref=wref, as_list=as_list, pick=pick, stream="random", **extra))
+    return calls
+
+
+
+# ----------------------------------------------------------------------------- cp_permute_factors, full model (cp_copy / cp_normalize glue)
+def np_cp_normalize(w, fs):
+    """numpy re-statement of cp_normalize's arithmetic (weights absorbed into factor 0; zero norms replaced by 1):
+    returns (the column norms it takes = the answer tape, the normalised factors)"""
+    tape, out = [], []
+    for i, f in enumerate(fs):
+        f = np.asarray(f, dtype=np.float64)
+        if i == 0:
+            f = f * np.asarray(w, dtype=np.float64)
+        sc = np.array(col_norms(f))
+        tape.append([float(x) for x in sc])
+        out.append(f / np.where(sc == 0, 1.0, sc).reshape(1, -1))
+    return tape, out
+
+
+def pt_lit(w, fs, nrm):
+    tape, nf = np_cp_normalize(w, fs)
+    compared = nf if nrm else fs
+    return (f"(mkPT {C.q_list([float(x) for x in w])} {mats_lit(fs)} {qlists_lit(tape)} "
+            f"{qlists_lit([col_norms(c) for c in compared])})")
+
+
+def zero_weight_class(call):
+    """the input class of the known finding: a zero weight in the reference, or in a tensor passed inside a LIST"""
+    if np.any(np.asarray(call["wref"]) == 0):
+        return True
+    return bool(call.get("as_list")) and any(np.any(np.asarray(w) == 0) for (w, _, _) in permute_entries(call))
+
+
+def pred_permute_full(call, out):
+    st, v = out
+    if st != "ok" and zero_weight_class(call):
+        return [("C20_permute_zero_weight", f"a zero weight in the reference / in a listed tensor makes cp_permute_factors raise: {v}")]
+    return pred_permute(call, out)
+
+
+def emit_permute_full(cid, call, out):
+    st, v = out
+    ents = permute_entries(call)
+    ref = pt_lit(call["wref"], call["As"], True)
+    if call.get("as_list"):
+        arg = "(PList [" + "; ".join(pt_lit(w, Bs, True) for (w, Bs, _) in ents) + "])"
+    else:
+        arg = f"(PSingle {pt_lit(ents[0][0], ents[0][1], False)})"
+    if st == "ok" and v[0] is None:
+        impl = "(Ok (@nil (list Q * list (mat Q) * list nat)))"
+    elif st == "ok":
+        impl = "(Ok [" + "; ".join(out_lit(pt, pm) for pt, pm in zip(v[0], v[1])) + "])"
+    else:
+        impl = "Err"
+    return f"({cid}%nat, KPermuteFull {ref} {arg} {impl})"
+
+
+def gen_permute_full(tier, rng):
+    """weights of every sign, and ZERO weights in the tensor passed alone (accepted), in a listed tensor and in the reference
+    (rejected: the absorbed weight gives a zero column)"""
+    calls = []
+    n = 36 if tier == "quick" else 120
+    for k in range(n):
+        r = 1 + k % 3 if tier == "quick" else 1 + k % 4
+        nm = rng.choice([2, 3]); hs = [rng.randint(2, 3) for _ in range(nm)]
+        A = factor_set(rng, r, hs, generic=True)
+        wref = np.array([rng.choice([0.5, 1.0, 2.0, -3.0]) for _ in range(r)])
+        w = np.array([rng.choice([0.5, 1.0, 2.0, 3.0, -1.0]) for _ in range(r)])
+        kind = k % 6
+        as_list = kind in (1, 3, 5)
+        pick = (k // 6) % 2
+        sigma = list(range(r)); rng.shuffle(sigma)
+        B = equivalent_copy(A, sigma, scalings(rng, r, nm, "signed")) if k % 4 != 3 else factor_set(rng, r, hs)
+        if k % 4 == 3:
+            sigma = None
+        extra = {}
+        if as_list:
+            s2 = list(range(r)); rng.shuffle(s2)
+            extra = dict(sigma_other=s2, Bs_other=equivalent_copy(A, s2, scalings(rng, r, nm, "signed")),
+                         w_other=np.array([rng.choice([0.25, 1.5, 4.0, -2.0]) for _ in range(r)]))
+        stream = "weights"
+        if kind in (2, 3):
+            w = w.copy(); w[rng.randrange(r)] = 0.0; stream = "zero weight, " + ("listed" if as_list else "alone")
+        if kind == 4:
+            wref = wref.copy(); wref[rng.randrange(r)] = 0.0; stream = "zero weight, reference"
+        calls.append(dict(As=A, Bs=B, w=w, wref=wref, sigma=sigma, as_list=as_list, pick=pick, stream=stream, **extra))
     return calls
 
 
@@ -1714,7 +1800,7 @@ SRC_TIES = {          # name -> (extractor, record type, canonical term, streams
     "factors.congruence_coefficient": (src_factors, "cong_src", "canonical_cs", ("congruence_coefficient", "congruence_certified", "cp_permute_factors")),
     "similarity.correlation_index": (src_similarity, "ci_src", "canonical_ci", ("correlation_index",)),
     "leverage_scores.leverage_score_dist": (src_leverage, "lev_src", "canonical_lv", ("leverage_score_dist",)),
-    "cp_tensor.cp_permute_factors": (src_cp_permute, "cpp_src", "canonical_pp", ("cp_permute_factors",)),
+    "cp_tensor.cp_permute_factors": (src_cp_permute, "cpp_src", "canonical_pp", ("cp_permute_factors", "cp_permute_full")),
 }
 
 
@@ -1758,6 +1844,27 @@ def source_tie_records(chk):
     return out
 
 
+# ----------------------------------------------------------------------------- known findings (own snippet merged at run time)
+def _load_known_merged(prop, _orig=C.load_known):
+    """known_findings.json is assembled by the coordinator from known_findings.d/*.json; read this property's own snippet too
+    (local helper: common.py is not edited)"""
+    import json, os
+    known = list(_orig(prop))
+    p = os.path.join(C.VERIF, "known_findings.d", f"{prop}.json")
+    if os.path.exists(p):
+        ids = {k.get("id") for k in known}
+        for k in json.load(open(p)).get("findings", []):
+            if k.get("property") == prop and k.get("id") not in ids:
+                known.append(k)
+    return known
+
+
+CLASSIFIERS = {
+    # exactly the class: cp_permute_factors raised AND a weight of the reference / of a tensor passed inside a list is zero
+    "permute_zero_weight": lambda f: f.get("predicate") == "C20_permute_zero_weight",
+}
+
+
 # ----------------------------------------------------------------------------- driver
 STREAMS = {
     "congruence_coefficient": ("tensorly.metrics.factors.congruence_coefficient", gen_congruence, call_congruence, pred_congruence, emit_congruence),
@@ -1766,6 +1873,8 @@ STREAMS = {
     "correlation_index": ("tensorly.metrics.similarity.correlation_index", gen_corridx, call_corridx, pred_corridx, emit_corridx),
     "leverage_score_dist": ("tensorly.metrics.leverage_scores.leverage_score_dist", gen_leverage, call_leverage, pred_leverage, emit_leverage),
     "regression": ("tensorly.metrics.regression", gen_reg, call_reg, pred_reg, emit_reg),
+    # new streams go LAST: the single random stream of the earlier ones stays what it was
+    "cp_permute_full": ("tensorly.cp_tensor.cp_permute_factors", gen_permute_full, call_permute, pred_permute_full, emit_permute_full),
 }
 
 
@@ -1942,7 +2051,8 @@ def run(chk):
                     "the meaning of a record is Model/MetricsSrc.v, equal to the model for the canonical record by Proofs/MetricsSrcTie.v"]
     chk.trusted += ["oracles: numpy sqrt (column norms), scipy.optimize.linear_sum_assignment, numpy.linalg.svd -- answers checked per case "
                     "(norm^2 = sum of squares to 1e-11; matching value = brute-force optimum over all r! matchings to 1e-9; U^T U = I, U S V^T = M to 1e-9)"]
-    return chk.finish({})
+    C.load_known = _load_known_merged
+    return chk.finish(CLASSIFIERS)
 
 
 def replay(payload):
